@@ -1,5 +1,59 @@
 package main
 
-func writeMain(args []string) { die("write: not implemented yet") }
+import (
+	"encoding/json"
+	"flag"
+	"os"
+	"os/signal"
+	"runtime"
+	"syscall"
+
+	"tags.cncf.io/container-device-interface/pkg/cdi"
+	specs "tags.cncf.io/container-device-interface/specs-go"
+)
+
+func init() {
+	// keep the main goroutine on the main thread: its system calls are then
+	// one deterministic sequence on one tracee
+	runtime.LockOSThread()
+}
+
+// writeMain: vhelper write [--fsize N] <dir> <name> <spec.json>
+// Writes the Spec with Cache.WriteSpec and prints {"err": "..."}.
+func writeMain(args []string) {
+	fs := flag.NewFlagSet("write", flag.ExitOnError)
+	fsize := fs.Int64("fsize", -1, "set RLIMIT_FSIZE to this many bytes (SIGXFSZ ignored) before writing")
+	_ = fs.Parse(args)
+	if fs.NArg() != 3 {
+		die("usage: vhelper write [--fsize N] <dir> <name> <spec.json>")
+	}
+	dir, name, specFile := fs.Arg(0), fs.Arg(1), fs.Arg(2)
+	data, err := os.ReadFile(specFile)
+	if err != nil {
+		die("%v", err)
+	}
+	var spec specs.Spec
+	if err := json.Unmarshal(data, &spec); err != nil {
+		die("%v", err)
+	}
+	cache, _ := cdi.NewCache(cdi.WithSpecDirs(dir), cdi.WithAutoRefresh(false))
+	if *fsize >= 0 {
+		signal.Ignore(syscall.SIGXFSZ)
+		lim := syscall.Rlimit{Cur: uint64(*fsize), Max: uint64(*fsize)}
+		if err := syscall.Setrlimit(syscall.RLIMIT_FSIZE, &lim); err != nil {
+			die("setrlimit: %v", err)
+		}
+	}
+	// marker system call so that the trace can be cut at the start of the write
+	_ = syscall.Getppid()
+	werr := cache.WriteSpec(&spec, name)
+	_ = syscall.Getppid()
+	out := map[string]string{}
+	if werr != nil {
+		out["err"] = werr.Error()
+	}
+	// stdout is not subject to RLIMIT_FSIZE when it is a pipe
+	_ = json.NewEncoder(os.Stdout).Encode(out)
+}
 
 func defcacheMain(args []string) { die("defcache: not implemented yet") }
